@@ -340,6 +340,10 @@ def build_unit(unit, outdir):
                 used_specs.add(fspec.name)
             if it.get('impl_of'):
                 ity, _, itr = it['impl_of'].partition(':')
+                if it.get('emit_impl'):
+                    # trait impl method emitted as an inherent method (trait indirection dropped, recorded as R16)
+                    rw.rec('R16', 'impl %s for %s' % (itr, ity), 'impl %s' % it['emit_impl'])
+                    ity, itr = it['emit_impl'], ''
                 em.emit('impl %s%s {' % ((itr + ' for ') if itr else '', ity))
             emit_fn(em, unit['name'], it, item_toks, fspec, path, text, rw)
             if it.get('impl_of'):
@@ -394,6 +398,15 @@ def build_unit(unit, outdir):
         em.emit('} // verus!')
         em.emit('}')
     em.emit('fn main() {}')
+    # guard against silently dropped clauses: every `@label` line of the spec files must have become an obligation
+    n_labels = 0
+    for sp in unit.get('spec_files', [unit['name'] + '.spec']):
+        pth = os.path.join(VERIF, 'contracts', sp)
+        if os.path.exists(pth):
+            n_labels += len(re.findall(r'^\s*@[A-Za-z0-9_.\-]+\s*(\[[A-Z0-9, ]*\])?\s*$', open(pth).read(), re.M))
+    n_spec_obls = len([o for o in em.obls if o['kind'] != 'lemma'])
+    if n_labels != n_spec_obls:
+        raise ExtractError('spec/obligation count mismatch in unit %s: %d labelled clauses in the spec files, %d obligations generated' % (unit['name'], n_labels, n_spec_obls))
     missing = [k for k in specs if k not in used_specs]
     if missing:
         raise ExtractError('spec sections without an extracted function: %s' % missing)
@@ -414,6 +427,17 @@ LEMMA_TAG = re.compile(r'//\s*@lemma\s+([A-Za-z0-9_.\-]+)\s*\[([A-Z0-9, ]*)\]')
 def collect_lemma_obligations(em, unit, fname, src, base):
     """`// @lemma name [C01,C02]` on the line before `proof fn name` registers a lemma obligation."""
     lines = src.split('\n')
+    for i, ln in enumerate(lines):
+        m = re.search(r'\b(proof|spec) fn\s+([A-Za-z0-9_]+)', ln)
+        if m:
+            j, depth, started = i, 0, False
+            while j < len(lines):
+                depth += lines[j].count('{') - lines[j].count('}')
+                started = started or '{' in lines[j]
+                if started and depth <= 0:
+                    break
+                j += 1
+            em.fn_ranges.append((base + i, base + j, m.group(2), 'lemmas/' + fname, i + 1, 'lemma-fn'))
     for i, ln in enumerate(lines):
         m = LEMMA_TAG.search(ln)
         if m:
@@ -529,6 +553,8 @@ def emit_fn(em, unit, it, toks, fspec, path, src_text, rw):
         tw = []
         if it.get('impl_of'):
             ity, _, itr = it['impl_of'].partition(':')
+            if it.get('emit_impl'):
+                ity, itr = it['emit_impl'], ''
             tw.append('impl %s%s {' % ((itr + ' for ') if itr else '', ity))
         tw.append('#[verifier::rlimit(1)]')
         twin_head = re.sub(r'\bfn\s+' + re.escape(name) + r'\b', 'fn __vac_' + name, head_txt, count=1)
